@@ -5,32 +5,57 @@ import GoBT.Interp.CondInv
 namespace GoBT.Interp
 open GoBT GoBT.Script
 
+/-- what the separator position may be after an opcode: unchanged, or the opcode's own offset (OP_CODESEPARATOR) -/
+def sepAfter (v off : Nat) (s s' : St) : Prop :=
+  (v ≠ 0xab → s'.lastCodeSep = s.lastCodeSep ∧ s'.sepSeen = s.sepSeen) ∧
+  (v = 0xab → s'.lastCodeSep = off ∧ s'.sepSeen = true)
+
+theorem sepAfter_of_same {v off : Nat} {s s' : St} (hv : v ≠ 0xab) (h : s'.same s) : sepAfter v off s s' :=
+  ⟨fun _ => ⟨h.2.1, h.2.2⟩, fun e => absurd e hv⟩
+
 theorem handler_depth (env : Env) (cur : List POp) (off : Nat) (o : POp) (s s' : St)
-    (h : handler env cur off o s = .ok s') : (s'.cond.length : Int) = s.cond.length + rtDelta o.op.toNat := by
+    (h : handler env cur off o s = .ok s') :
+    (s'.cond.length : Int) = s.cond.length + rtDelta o.op.toNat ∧ sepAfter o.op.toNat off s s' := by
   unfold handler at h
   simp only [] at h
   split at h
-  · next hv => cases h; simp at hv; simp [rtDelta, hv]
+  · next hv => cases h; simp at hv; simp [rtDelta, hv, sepAfter]
   split at h
-  · next hv => cases h; simp [rtDelta]; omega
+  · next hv => cases h; refine ⟨by simp [rtDelta]; omega, ⟨fun _ => ⟨rfl, rfl⟩, fun e => by omega⟩⟩
   split at h
-  · next hv => cases h; simp at hv; simp [rtDelta, hv, pushNum]
+  · next hv => cases h; simp at hv; simp [rtDelta, hv, pushNum, sepAfter]
   split at h
   · cases h
   split at h
-  · next hv => cases h; simp [rtDelta]; omega
+  · next hv => cases h; refine ⟨by simp [rtDelta]; omega, ⟨fun _ => ⟨rfl, rfl⟩, fun e => by omega⟩⟩
   split at h
-  · exact handlerFlow_depth _ _ _ _ _ h
+  · next h1 h2 =>
+    have := handlerFlow_depth _ _ _ _ _ h
+    exact ⟨this.1, ⟨fun _ => this.2, fun e => by omega⟩⟩
   split at h
-  · next h1 h2 => rw [handlerStack_cond _ _ _ _ h]; simp [rtDelta]; omega
+  · next h1 h2 =>
+    have := handlerStack_cond _ _ _ _ h
+    exact ⟨by rw [this.1]; simp [rtDelta]; omega, sepAfter_of_same (by omega) this⟩
   split at h
-  · next h1 h2 => rw [handlerSplice_cond _ _ _ _ h]; simp [rtDelta]; omega
+  · next h1 h2 =>
+    have := handlerSplice_cond _ _ _ _ h
+    exact ⟨by rw [this.1]; simp [rtDelta]; omega, sepAfter_of_same (by omega) this⟩
   split at h
-  · next h1 h2 => rw [handlerNum_cond _ _ _ _ h]; simp [rtDelta]; omega
+  · next h1 h2 =>
+    have := handlerNum_cond _ _ _ _ h
+    exact ⟨by rw [this.1]; simp [rtDelta]; omega, sepAfter_of_same (by omega) this⟩
   split at h
-  · next h1 h2 => rw [handlerCrypto_cond _ _ _ _ _ _ h]; simp [rtDelta]; omega
+  · next h1 h2 =>
+    have := handlerCrypto_cond _ _ _ _ _ _ h
+    by_cases hab : o.op.toNat = 0xab
+    · have t := this.2 hab
+      exact ⟨by rw [t.1]; simp [rtDelta]; omega, ⟨fun e => absurd hab e, fun _ => t.2⟩⟩
+    · have t := this.1 hab
+      exact ⟨by rw [t.1]; simp [rtDelta]; omega, sepAfter_of_same hab t⟩
   split at h
-  · next h1 h2 => rw [handlerLock_cond _ _ _ _ h]; simp [rtDelta]; omega
+  · next h1 h2 =>
+    have := handlerLock_cond _ _ _ _ h
+    exact ⟨by rw [this.1]; simp [rtDelta]; omega, sepAfter_of_same (by omega) this⟩
   · cases h
 
 /-- the parser's nesting count after an opcode -/
@@ -61,6 +86,9 @@ theorem depthStep_nonCond (b : UInt8) (d : Int) (h : isConditionalOp b = false) 
 
 theorem bump_cond (o : POp) (s : St) : (bump o s).cond = s.cond := by
   unfold bump; split <;> rfl
+
+theorem bump_sep (o : POp) (s : St) : (bump o s).lastCodeSep = s.lastCodeSep ∧ (bump o s).sepSeen = s.sepSeen := by
+  unfold bump; split <;> exact ⟨rfl, rfl⟩
 
 /-- how `executeOpcode` can complete normally: the opcode was skipped (then it is not a conditional), or its
     handler ran on the counted state; and it then passed the format check -/
@@ -98,16 +126,24 @@ theorem executeOpcode_ok (env : Env) (cur : List POp) (off : Nat) (o : POp) (s s
   · right; exact h
 
 /-- **Depth invariant**: if the run-time conditional depth is at most the parser's count before an opcode completes
-    normally, it is at most the parser's count after it. -/
+    normally, it is at most the parser's count after it; and the separator position is unchanged or the opcode's
+    own offset. -/
 theorem executeOpcode_depth (env : Env) (cur : List POp) (off : Nat) (o : POp) (s s' : St) (d : Int)
     (h : executeOpcode env cur off o s = .ok s') (hd : (s.cond.length : Int) ≤ d) :
-    (s'.cond.length : Int) ≤ depthStep o.op d := by
+    (s'.cond.length : Int) ≤ depthStep o.op d ∧
+    ((s'.lastCodeSep = s.lastCodeSep ∧ s'.sepSeen = s.sepSeen) ∨ (s'.lastCodeSep = off ∧ s'.sepSeen = true)) := by
   rcases executeOpcode_ok _ _ _ _ _ _ h with ⟨e, hnc, _⟩ | hh
-  · rw [e, bump_cond, depthStep_nonCond _ _ hnc]; exact hd
+  · rw [e, bump_cond, depthStep_nonCond _ _ hnc]
+    exact ⟨hd, Or.inl (bump_sep o s)⟩
   · have key := rtDelta_le_depthStep o.op d
     have := handler_depth _ _ _ _ _ _ hh
     rw [bump_cond] at this
-    omega
+    refine ⟨by omega, ?_⟩
+    by_cases hab : o.op.toNat = 0xab
+    · exact Or.inr (this.2.2 hab)
+    · have t := this.2.1 hab
+      rw [(bump_sep o s).1, (bump_sep o s).2] at t
+      exact Or.inl t
 
 /-! ### what the parser guarantees -/
 
@@ -206,33 +242,55 @@ theorem return_at_top_not_ok (env : Env) (cur : List POp) (off : Nat) (s s' : St
     simp [hbc]
     split <;> simp
 
+/-- the recorded separator position lies inside the current script (or none was recorded) -/
+def SepOK (cur : List POp) (s : St) : Prop :=
+  s.lastCodeSep < cur.length ∨ (s.lastCodeSep = 0 ∧ s.sepSeen = false)
+
+theorem subScript_some (cur : List POp) (s : St) (h : SepOK cur s) : subScript cur s ≠ none := by
+  unfold subScript
+  rcases h with h | ⟨h0, hs⟩
+  · split
+    · have : ¬ (s.lastCodeSep + 1 > cur.length) := by omega
+      simp [this]
+    · simp
+  · simp [h0, hs]
+
+theorem SepOK_bump (cur : List POp) (o : POp) (s : St) (h : SepOK cur s) : SepOK cur (bump o s) := by
+  unfold SepOK at *
+  rw [(bump_sep o s).1, (bump_sep o s).2]
+  exact h
+
 /-- **No panic while running a parsed script**, for every suffix, offset, state and trace. -/
 theorem runOps_noPanic (env : Env) (sidx : Nat) (cur : List POp) :
     ∀ (ops : List POp) (off : Nat) (s : St) (tr : List Snap) (d : Int),
-      Parsed env.ctx.isNone d ops → (s.cond.length : Int) ≤ d →
+      Parsed env.ctx.isNone d ops → (s.cond.length : Int) ≤ d → off + ops.length = cur.length → SepOK cur s →
       ∀ p, (runOps env sidx cur ops off s tr).1 ≠ .panicked p := by
   intro ops
   induction ops with
-  | nil => intro off s tr d _ _ p h; simp [runOps] at h
+  | nil => intro off s tr d _ _ _ _ p h; simp [runOps] at h
   | cons o rest ih =>
-    intro off s tr d hp hd p h
+    intro off s tr d hp hd hoff hsep p h
+    have hofflt : off < cur.length := by simp at hoff; omega
     unfold runOps at h
     cases he : executeOpcode env cur off o s with
     | err e => rw [he] at h; simp at h
     | success s1 => rw [he] at h; simp at h
     | panic q =>
-      -- excluded by the parser's guarantees
+      -- excluded by the parser's guarantees and the separator invariant
       have hq := executeOpcode_isPanic env cur off o s (by rw [he]; rfl)
+      have hsub := subScript_some cur (bump o s) (SepOK_bump cur o s hsep)
       cases hp with
       | ret rest' =>
-        rcases hq with ⟨_, hr⟩ | hl
+        rcases hq with ⟨_, hr⟩ | hl | hs
         · simp [requiresTx, opRETURN] at hr
         · exact hl opLength_return.symm
+        · exact hsub hs
       | cons d' o' rest' hnr hlen htx hrest =>
-        rcases hq with ⟨hn, hr⟩ | hl
+        rcases hq with ⟨hn, hr⟩ | hl | hs
         · have := htx (by simp [hn])
           rw [this] at hr; cases hr
         · exact hl hlen
+        · exact hsub hs
     | ok s1 =>
       rw [he] at h
       simp only at h
@@ -244,10 +302,15 @@ theorem runOps_noPanic (env : Env) (sidx : Nat) (cur : List POp) :
           | cons a b => rw [hcs] at hd; simp at hd; omega
         exact return_at_top_not_ok env cur off s s1 hc he
       | cons d' o' rest' hnr hlen htx hrest =>
+        have hdep := executeOpcode_depth _ _ _ _ _ _ _ he hd
+        have hsep1 : SepOK cur s1 := by
+          rcases hdep.2 with ⟨e1, e2⟩ | ⟨e1, e2⟩
+          · unfold SepOK at *; rw [e1, e2]; exact hsep
+          · left; rw [e1]; exact hofflt
         split at h
         · simp at h
         · split at h
           · simp at h
-          · exact ih _ _ _ _ hrest (executeOpcode_depth _ _ _ _ _ _ _ he hd) p h
+          · exact ih _ _ _ _ hrest hdep.1 (by simp at hoff ⊢; omega) hsep1 p h
 
 end GoBT.Interp
